@@ -398,6 +398,8 @@ class Interp:
                 env[p.arg] = kwargs.pop(p.arg)
             elif d is not None:
                 env[p.arg] = self.eval_const_default(d, mod)
+        if a.kwarg and not kwargs:
+            env[a.kwarg.arg] = {}
         if kwargs:
             if a.kwarg:
                 env[a.kwarg.arg] = kwargs
